@@ -54,6 +54,14 @@ def make_jobs(chk):
                     cmds.append("exec " + " ".join(lists[i + 1]))
                 cmds.append("steps")
                 jobs.append(SessionJob("e%d:%s:%d" % (n, name, k), script, stack, fl, sv, succ=succ, cmds=cmds, cmp=CMP, weight=weight))
+    # exec of data tokens under MINIMALDATA: the token is pushed as given (a direct push), so the push itself is judged by the minimal-push rule
+    hexes = ["00", "01", "02", "05", "0a", "0f", "10", "11", "4f", "50", "7f", "80", "81", "ff", "0000", "0001", "0100", "0080", "0500", "7f00", "8000", "abcd",
+             "00000000", "0000000000", "01" * 75, "01" * 76, "02" * 255, "02" * 256]
+    for fl in (["MINIMALDATA"], drivers.STANDARD, ["MINIMALIF", "MINIMALDATA", "CLEANSTACK"]):
+        for sv in ("BASE", "WITNESS_V0", "TAPSCRIPT"):
+            for i in range(0, len(hexes), 2):
+                n += 1
+                jobs.append(SessionJob("e%d:minimal:%s" % (n, sv), b"\x51\x52\x93", [], fl, sv, cmds=["step", "exec " + hexes[i], "exec " + hexes[i + 1] + " OP_DROP", "steps"], cmp=CMP))
     # op-count budget shared between script and exec: near the limit
     base = b"\x51" + bytes([O["NOP"]]) * 150
     for extra in (49, 50, 51, 52):
